@@ -409,6 +409,46 @@ def int_cast_spec(r: random.Random, **kw) -> dict:
     return sp
 
 
+def float_cast_spec(r: random.Random, sources=('inline', 'dict', 'struct', 'hdf5')):
+    """One frame with a float channel X declared with a cast to a narrower type; 0-2 of its values are out of range for
+    SOME of the targets (fill kind 'oor').  Returns (spec, op index of X, source dtype, target dtype name, number of such values)."""
+    import numpy as np
+    n = r.choice([1, 2, 3, 4, 5, 8, 9, 16, 17, 40])
+    src = r.choice(['<f8', '<f8', '>f8', '<f4', '>f4'])
+    dst = r.choice(['uint8', 'int8', 'uint16', 'int16', 'uint32', 'uint32', 'int32'] + (['float32'] if src[1:] == 'f8' else []))
+    shape = (n,) if r.random() < 0.8 else (n, r.choice([2, 3]))
+    nbad = r.choice([0, 1, 1, 1, 2])
+    size = int(np.prod(shape))
+    bad_at = [[r.randrange(size), r.randrange(1000)] for _ in range(nbad)]
+    sp = base_spec(r.choice([128, 8192]))
+    sp['ops'].append(origin_op())
+    single = len(shape) == 1 and r.random() < 0.3    # (a frame of ONE channel is cast into a contiguous destination)
+    ops = sp['ops']
+    if not single:
+        ops.append(channel_op('IDX', '<f8', (n,), fill={'kind': 'pos', 'tag': 1}))
+    ops.append(channel_op('X', src, shape, fill={'kind': 'oor', 'bad_at': bad_at},
+                              layout=r.choice(['C', 'C', 'strided', 'view', 'F' if len(shape) > 1 else 'C']),
+                              cast_dtype={'$dtype': dst, 'as': r.choice(['type', 'dtype'])}))
+    xi = len(ops) - 1
+    if not single:
+        for j in range(r.choice([0, 0, 1, 2])):
+            ops.append(channel_op(f'O{j}', '<f4', (n,), fill={'kind': 'pos', 'tag': 3 + j}))
+    chans = [i for i, o in enumerate(ops) if o['op'] == 'channel']
+    if len(shape) == 1 and r.random() < 0.4:
+        chans.remove(xi)
+        chans.insert(0, xi)
+    ops.append(frame_op('FR', chans))
+    source = r.choice(list(sources))
+    sp['write'] = {'source': source, 'input_chunk_size': r.choice(chunk_choices(n)), 'output_chunk_size': 2 ** 16}
+    if source == 'struct':
+        sp['write']['struct_variant'] = r.choice([None, None, 'aligned', 'view'])
+        sp['write']['extra'] = r.choice([0, 0, 1])
+    if n > 2 and r.random() < 0.4:
+        a0 = r.randrange(0, n - 1)
+        sp['write'].update({'from_idx': a0, 'to_idx': r.choice([None, r.randrange(a0 + 1, n + 1)])})
+    return sp, xi, src, dst, nbad
+
+
 def frame_signature(sp) -> str:
     chans = [o for o in sp['ops'] if o['op'] == 'channel']
     w = sp.get('write', {})
